@@ -41,6 +41,16 @@ func c18Files() []c18File {
 		{name: "link.evy", content: "y:=2\nprint   y\n", mode: 0o644, parses: true, symlink: true},
 		{name: "members.txtar", content: "comment\n-- a.evy --\nx:=1\nprint   x\n-- notes.txt --\nkeep   this\n-- b.evy --\nprint   2\n", mode: 0o640, parses: true, txtar: true},
 		{name: "bad-member.txtar", content: "-- a.evy --\nx:=1\nprint   x\n-- b.evy --\nprint (\n", mode: 0o644, parses: false, txtar: true},
+		// permission bits that a umask would filter; CR is an illegal character: CRLF files do not parse
+		{name: "group-write.evy", content: "g:=1\nprint   g\n", mode: 0o664, parses: true},
+		{name: "world-write.evy", content: "w:=1\nprint   w\n", mode: 0o666, parses: true},
+		{name: "group-exec.evy", content: "e:=1\nprint   e\n", mode: 0o775, parses: true},
+		{name: "odd-mode.evy", content: "o:=1\nprint   o\n", mode: 0o606, parses: true},
+		{name: "crlf.evy", content: "x := 1\r\nprint x\r\n", mode: 0o644, parses: false},
+		{name: "crlf-unformatted.evy", content: "x:=1\r\nprint   x\r\n", mode: 0o644, parses: false},
+		{name: "crlf.txtar", content: "-- a.evy --\nx := 1\r\nprint x\r\n", mode: 0o644, parses: false, txtar: true},
+		{name: "no-final-newline.evy", content: "x := 1\nprint x", mode: 0o644, parses: true},
+		{name: "trailing-blank.evy", content: "x := 1\nprint x \n", mode: 0o644, parses: true},
 	}
 }
 
@@ -111,11 +121,18 @@ func c18Cases(tier string) []c18Case {
 		// call, so the kernel would claim k bytes without having written any (a lying kernel, not a
 		// short write); not enumerated.
 	}
-	for fi := range files {
-		out = append(out, c18Case{file: fi, kind: "check"})
-		if fi >= 6 && tier != "thorough" {
-			break
+	inSet := map[int]bool{}
+	for _, fi := range fileSet {
+		inSet[fi] = true
+	}
+	for fi, f := range files {
+		if tier != "thorough" && f.name == "big.evy" {
+			continue
 		}
+		if !inSet[fi] {
+			out = append(out, c18Case{file: fi, kind: "clean"}) // one uninjected -w run per shape: bytes, mode, status
+		}
+		out = append(out, c18Case{file: fi, kind: "check"})
 	}
 	return out
 }
@@ -124,7 +141,7 @@ func init() {
 	core.Register(&core.Check{
 		ID:    "C18",
 		Level: "fault_enumeration",
-		Rule: "the real evy binary built from the current tree runs `fmt -w` on source files of several shapes (needing changes, already formatted, executable bit, unparsable, empty, read-only, 1 MiB, reached through a symlink, txtar with several members, txtar with an unparsable member) under strace -f: a clean traced run, then one run per kill point (every syscall kind of the process x occurrence index: SIGKILL on entering that call) and per injected fault (file-related syscalls x occurrence x errno, short writes); after every run the bytes and mode of the file, the directory listing, exit status and stderr are judged; `fmt -c` on every shape (file and stdin). distinct = distinct (file shape, injection) pairs whose injection actually fired (strace log)",
+		Rule: "the real evy binary built from the current tree runs `fmt -w` on source files of several shapes (needing changes, already formatted, executable bit, unparsable, empty, read-only, 1 MiB, reached through a symlink, txtar with several members, txtar with an unparsable member, modes 0664/0666/0775/0606, CRLF and CR line endings, missing final newline, trailing blank) under strace -f: a clean traced run, then one run per kill point (every syscall kind of the process x occurrence index: SIGKILL on entering that call) and per injected fault (file-related syscalls x occurrence x errno, short writes); after every run the bytes and mode of the file, the directory listing, exit status and stderr are judged; `fmt -c` on every shape (file and stdin). distinct = distinct (file shape, injection) pairs whose injection actually fired (strace log)",
 		Assumptions: []string{
 			"closed-form oracle: file bytes in {original, formatted}; mode unchanged; exit 0 implies the file holds the formatted text; unparsable input: file untouched and exit != 0",
 			"durability across power loss (no fsync before rename) is outside the property's quantifier and not claimed; leftover temporary files after a failed write are reported in the evidence but are not violations",
